@@ -718,6 +718,17 @@ func (fg *FG) bytesToStr(st *State, sl string) string {
 		fg.decls = append(fg.decls, "(assert (forall ((a (Array Int Int)) (o Int) (n Int)) (! (=> (>= n 0) (= (strlen (str.of a o n)) n)) :pattern ((str.of a o n)))))")
 		fg.decls = append(fg.decls, "(assert (forall ((a (Array Int Int)) (o Int) (n Int) (i Int)) (! (=> (and (<= 0 i) (< i n) (<= 0 (select a (+ o i))) (< (select a (+ o i)) 256)) (= (strat (str.of a o n) i) (select a (+ o i)))) :pattern ((strat (str.of a o n) i)))))")
 	}
+	// the string made from a byte slice has that slice's bytes
+	fg.declareFun("bytes.ofstr", []string{"Str"}, "Bytes")
+	if !fg.declSet["ax.bytes.ofstr"] {
+		fg.declSet["ax.bytes.ofstr"] = true
+		fg.decls = append(fg.decls, "(assert (forall ((s Str)) (! (= (blen (bytes.ofstr s)) (strlen s)) :pattern ((bytes.ofstr s)))))")
+		fg.decls = append(fg.decls, "(assert (forall ((s Str) (i Int)) (! (=> (and (<= 0 i) (< i (strlen s))) (= (bat (bytes.ofstr s) i) (strat s i))) :pattern ((bat (bytes.ofstr s) i)))))")
+	}
+	if !fg.declSet["ax.str.of.bytes"] {
+		fg.declSet["ax.str.of.bytes"] = true
+		fg.decls = append(fg.decls, "(assert (forall ((a (Array Int Int)) (o Int) (n Int)) (! (=> (>= n 0) (= (bytes.ofstr (str.of a o n)) (bytes.of a o n))) :pattern ((str.of a o n)))))")
+	}
 	return fmt.Sprintf("(str.of (select %s (s.arr %s)) (s.off %s) (s.len %s))", fg.heap(st, fam, srt), sl, sl, sl)
 }
 
